@@ -6,7 +6,7 @@
     async fn verif_witness_recover() {
         const MB: usize = 1024 * 1024;
         let mut found: Vec<String> = vec![];
-        let label = std::env::var("VERIF_WITNESS_LABEL").unwrap_or("recovered_index_serves_the_latest_version_of_every_key".to_string());
+        let label = std::env::var("VERIF_WITNESS_LABEL").unwrap_or("winning_entry_is_indexed_under_its_own_hash_and_address".to_string());
         for (entries, tombstones) in [(40u64, false), (260u64, true), (400u64, true)] {
             let dir = tempfile::tempdir().unwrap();
             let memory = cache_for_test();
@@ -59,6 +59,33 @@
                     break;
                 }
             }
+        }
+        // a key deleted, written again and deleted again AFTER the one-page tombstone log wrapped: the newest tombstone of the
+        // key sits at a lower slot than its stale first one; after a reopen the key must stay deleted
+        {
+            let dir = tempfile::tempdir().unwrap();
+            let memory = cache_for_test();
+            let store = store_for_test_with_tombstone_log(dir.path()).await;
+            for i in 1000..1100u64 { store.delete(memory.hash(&i)); }
+            store.wait().await;
+            enqueue(&store, memory.insert(7, vec![7; 3 * KB]));
+            store.wait().await;
+            store.delete(memory.hash(&7));
+            store.wait().await;
+            enqueue(&store, memory.insert(7, vec![!7; 3 * KB]));
+            store.wait().await;
+            for i in 2000..2160u64 { store.delete(memory.hash(&i)); }
+            store.wait().await;
+            store.delete(memory.hash(&7));
+            store.wait().await;
+            store.close().await.unwrap();
+            drop(store);
+            let store = store_for_test_with_tombstone_log(dir.path()).await;
+            let back = store.load(memory.hash(&7)).await.map(|l| l.kv().is_some()).unwrap_or(false);
+            if back {
+                found.push(format!("WITNESS hash_whose_newest_version_is_a_tombstone_is_not_indexed :: one-page tombstone log: 100 deletes; insert(7); delete(7); insert(7); 160 deletes (the log wraps); delete(7); close; reopen: key 7 is readable again although its newest delete was flushed"));
+            }
+            store.close().await.unwrap();
         }
         for f in found.iter().take(3) { println!("{f}"); }
         println!("WITNESS-SEARCH-DONE found={}", found.len());
